@@ -975,12 +975,35 @@ func c19TransformCase(ctx *Ctx, v cty.Value, wlog []c19Visit) {
 				seenE[encPath(e.p)] = true
 			}
 		}
-		for pth := range want {
+		for _, pth := range sortedKeys(want) {
 			if !seenE[pth] {
 				ctx.Fail(Failure{Site: "transform-enter-replace", Sig: "member-of-replacement-not-entered", What: "a member of the value Enter returned was never passed to Enter",
 					Input: vw + " " + rule.enc() + " " + pth, GoLit: glit, Outcome: encLog(log)})
 				break
 			}
+		}
+		// d19b (C19.transform_enter_replace, last clauses): the Enter calls at or below the path are exactly one per
+		// member of the REPLACEMENT (plus the one that received the original member): the members of the original are
+		// never entered, no member of the replacement twice — counted, so that members below sets are included
+		nEnter := 0
+		for _, e := range log {
+			if e.kind != "e" || len(e.p) < len(tgt.p) {
+				continue
+			}
+			pre := true
+			for i := range tgt.p {
+				if encStep(e.p[i]) != encStep(tgt.p[i]) {
+					pre = false
+					break
+				}
+			}
+			if pre {
+				nEnter++
+			}
+		}
+		if want := c19Count(repl); nEnter != want {
+			ctx.Fail(Failure{Site: "transform-enter-replace", Sig: "enter-count", What: fmt.Sprintf("%d Enter calls at or below the path, the value Enter returned has %d members (itself included)", nEnter, want),
+				Input: vw + " " + rule.enc(), GoLit: glit, Outcome: encLog(log)})
 		}
 	}
 
